@@ -50,6 +50,13 @@ def load_variants(path, wanted):
     return out
 
 
+def shape_of(d):
+    """a readable signature of a rewrite description (for coverage accounting only)"""
+    parts = sorted('%s:%s%s%s' % (x['k'], x['lf'], ':seg%d' % x['sd'] if x['sg'] >= 0 else '',
+                                  ':perm' if x['ord'] else '') for x in d)
+    return '+'.join(parts)
+
+
 def strip_outcome(o):
     return {k: v for k, v in o.items() if k != 'r'}
 
@@ -92,10 +99,17 @@ def run_batch(batch, variants, out):
                 continue
             data = bytes(ctl[0]['b'])
             rec['ctl'] = dec_outcome(guarded(lambda: spec.decode(name, data)), env, top, False)
+            seen = set()
+            rec['shapes'] = {}
             for v in vs:
                 if not v['d']:
                     continue
                 data = bytes(v['b'])
+                if data in seen:
+                    continue
+                seen.add(data)
+                sh = shape_of(v['d'])
+                rec['shapes'][sh] = rec['shapes'].get(sh, 0) + 1
                 d = dec_outcome(guarded(lambda: spec.decode(name, data)), env, top, False)
                 if d == rec['ctl']:
                     rec['same'] += 1
@@ -140,10 +154,17 @@ def run_raw(c, variants, out):
     if co['st'] == 'ok':
         co['repr'] = py_repr(cval)
     rec['ctl'] = co
+    seen = set()
+    rec['shapes'] = {}
     for v in vs:
         if not v['d']:
             continue
         data = bytes(v['b'])
+        if data in seen:
+            continue
+        seen.add(data)
+        sh = shape_of(v['d'])
+        rec['shapes'][sh] = rec['shapes'].get(sh, 0) + 1
         do = guarded(lambda: spec.decode(c['type'], data))
         dval = do.pop('r', None)
         if do['st'] == 'ok' and co['st'] == 'ok':
